@@ -18,6 +18,34 @@ _u = dict(file="C15u.c", name="h15u", function="h15u", repo_srcs=[x for x in _sr
           defines=["-DNCH=2", "-DFCAP=4", "-DCMAX=3", "-DHMAX=8", "-DZS_MAX=8", "-DV_UTHASH_MODEL"], unwind=66, unwindset=["memset.0:200"],
           what="chunk-end step of the reader (comp_end_dchunk) from the state reached when the last stored byte of a zstd chunk was read: failure and an empty output buffer on checksum mismatch; exact decoding on acceptance",
           bounds="stored size 1..3 (all byte values), declared size 0..4, any digest", functions=["comp_end_dchunk", "zstd end_dchunk", "comp_add_to_dc", "validate_current_chunk", "validate_chunk", "hash_finalize"])
+_qsrcs = _srcs
+_qrb = dict(ERR, **{"src/lib/hash/hash.c": ["get_digest_string", "validate_current_chunk"]})
+_qm = ["compint_spec.c", "log_err.c", "files.c", "hash_nondet.c", "fmt.c", "digeststr.c", "keyeq.c", "zstd_stub.c"]
+def Q(name, comp, nch, shape, fsz, w, clr, what, extra=()):
+    d = ["-DNCH=%d" % nch, "-DFCAP=8", "-DDOFF=2", "-DZS_MAX=8", "-DV_UTHASH_MODEL", "-DCOMP=%s" % comp, "-DFSZ=%d" % fsz, "-DCLR=%d" % clr, "-DH_h15q"]
+    for k, (cl, ul, v) in enumerate(shape, 1):
+        d += ["-DCL%d=%d" % (k, cl), "-DUL%d=%d" % (k, ul), "-DV%d=%d" % (k, v)]
+    d += ["-DW%d=%d" % (k + 1, x) for k, x in enumerate(w)]
+    return dict(file="C15q.c", name="h15q-" + name, function="h15q", repo_srcs=_qsrcs, remove_bodies=_qrb, models=_qm, defines=d + list(extra), unwind=66,
+                unwindset=["comp_read.0:14"], what=what, functions=_fn, timeout=600,
+                bounds="concrete shape: %s, chunks (stored,declared,verdict)=%s, file length %d, request sizes %s, clear-error=%d; all data bytes symbolic" % (comp, shape, fsz, w, clr))
+Z, N = "ZCK_COMP_ZSTD", "ZCK_COMP_NONE"
+_QI = [
+    ("good-w1", Z, 2, [(3, 2, 1)], 5, (1, 1, 1, 1), 0, "intact zstd chunk, 1-byte reads to EOF and close"),
+    ("good-w2", Z, 2, [(3, 2, 1)], 5, (2, 2, 2, 0), 0, "intact zstd chunk, reads as large as the chunk"),
+    ("good-w3", Z, 2, [(3, 2, 1)], 5, (3, 3, 0, 0), 0, "intact zstd chunk, reads larger than the chunk"),
+    ("bad-w1", Z, 2, [(3, 2, -1)], 5, (1, 1, 1, 1), 0, "zstd chunk failing its checksum, buffer smaller than the chunk"),
+    ("bad-w1-clr", Z, 2, [(3, 2, -1)], 5, (1, 1, 1, 1), 1, "same, caller clears the error and reads on"),
+    ("bad-w3", Z, 2, [(3, 2, -1)], 5, (3, 1, 1, 0), 0, "zstd chunk failing its checksum, buffer larger than the chunk"),
+    ("trunc-w1", Z, 2, [(3, 2, 1)], 4, (1, 1, 1, 1), 0, "file truncated inside the chunk"),
+    ("declbig", Z, 2, [(3, 3, 1)], 5, (1, 1, 1, 1), 0, "declared size larger than what the codec returns"),
+    ("two-good", Z, 3, [(2, 1, 1), (2, 1, 1)], 6, (1, 1, 1, 0), 0, "two intact zstd chunks"),
+    ("two-bad2", Z, 3, [(2, 1, 1), (2, 1, -1)], 6, (1, 1, 1, 0), 0, "second of two chunks fails its checksum"),
+    ("two-bad1", Z, 3, [(2, 1, -1), (2, 1, 1)], 6, (1, 1, 1, 0), 1, "first of two chunks fails its checksum, caller clears the error"),
+    ("badmarker", Z, 2, [(3, 2, 1)], 5, (1, 1, 1, 0), 0, "stored bytes match the checksum but do not decode (wrong frame marker)", ("-DM1=0",)),
+    ("nocomp-good", N, 2, [(2, 2, 1)], 4, (1, 1, 1, 0), 0, "uncompressed chunk, intact", ("-DNOC15",)),
+    ("nocomp-bad", N, 2, [(2, 2, -1)], 4, (1, 1, 1, 0), 0, "uncompressed chunk failing its checksum: read to end and close must not succeed", ("-DNOC15",)),
+]
 SPEC = {
     "explanation": "one inductive step of the reader at a chunk end (comp_end_dchunk, the only place where decoded bytes of a unit-decoded chunk enter the output "
                    "buffer), from the state comp_read has there, for all stored bytes / digests / declared sizes: on a checksum mismatch the step fails and "
@@ -27,6 +55,8 @@ SPEC = {
     "assumptions": ["zmalloc/zrealloc replaced by env/padalloc.c (fixed-capacity buffers, logical size tracked and checked by env/mem.c): direct stores past the logical size are not flagged here", "context in the state zck_read_header leaves (C13)", "hash back end = env/hash_acc.c", "no I/O errors (C12)"],
     "harnesses": [
         _u,
+        # whole read path with a concrete shape per instance (sizes, file length, request sizes, checksum verdicts); bytes symbolic
+    ] + [Q(*a) for a in _QI] + [
         # whole-path harnesses (h15r: sequential reads vs reference decoding, h15v: nondeterministic checksum verdict) are kept in
         # harness/C15.c but not registered: smallest instance (1 data chunk, 2 reads of <= 2 bytes) exhausted 16 GB (DESIGN.md section 7)
     ],
